@@ -28,10 +28,13 @@ func (f *verifStateMgr) WatchNodeStateChangeEvent(models.NodeID, func(models.Nod
 
 type verifFollower struct {
 	p *partition
-	// faults: 0 none, 1 request lost (send fails), 2 reply lost (request delivered, recv fails)
+	// faults: 0 none, 1 request lost (send fails), 2 reply lost (request delivered, recv fails),
+	// 3 the follower's partition is closed while the stream is still open (expired family, shutdown)
 	streamFault int
 	pending     *protoReplicaV1.ReplicaResponse
 	resets      []int64
+	// positions the follower really stored at some time (initial content, successful ReplicaLog calls)
+	everHeld map[int64]bool
 }
 
 type verifCli struct {
@@ -62,11 +65,19 @@ func (s *verifStream) Send(req *protoReplicaV1.ReplicaRequest) error {
 	if s.f.streamFault == 1 {
 		return errVerifFault
 	}
+	if s.f.streamFault == 3 {
+		s.f.p.closed.Store(true)
+	} else {
+		s.f.p.closed.Store(false)
+	}
 	// the follower-side handler (app/storage/rpc ReplicaHandler.Replica): ReplicaLog, then the reply
 	appendedIdx, err := s.f.p.ReplicaLog(req.ReplicaIndex, req.Record)
 	resp := &protoReplicaV1.ReplicaResponse{ReplicaIndex: req.ReplicaIndex, AckIndex: appendedIdx}
 	if err != nil {
 		resp.Err = err.Error()
+	}
+	if got, gerr := s.f.p.log.Queue().Get(req.ReplicaIndex); err == nil && gerr == nil && verifSameMsg(got, req.Record) {
+		s.f.everHeld[req.ReplicaIndex] = true
 	}
 	s.f.pending = resp
 	return nil
@@ -132,7 +143,10 @@ func verifSetup(la, fa int64, consumed, acked int64) *verifPair {
 	cg, _ := lead.GetOrCreateConsumerGroup("2")
 	cg.SetConsumedSeq(consumed)
 	cg.Ack(acked)
-	f := &verifFollower{p: &partition{log: fol, closed: atomic.NewBool(false), statistics: metrics.NewStorageWriteAheadLogStatistics("db", "1")}}
+	f := &verifFollower{p: &partition{log: fol, closed: atomic.NewBool(false), statistics: metrics.NewStorageWriteAheadLogStatistics("db", "1")}, everHeld: map[int64]bool{}}
+	for i := int64(0); i <= fa; i++ {
+		f.everHeld[i] = true
+	}
 	rr := NewRemoteReplicator(context.Background(),
 		&ReplicatorChannel{State: &models.ReplicaState{Database: "db", Leader: 1, Follower: 2}, ConsumerGroup: cg},
 		&verifStateMgr{}, &verifFct{cli: &verifCli{f: f}}).(*remoteReplicator)
@@ -195,7 +209,7 @@ func verifC08Handshake() {
 	p.checkIdentical(int64(maxSeq), "after handshake")
 	// the leader appends a new message and replicates whatever is pending, with an arbitrary fault on the way
 	_ = p.leader.Queue().Put([]byte{'n', 'e', 'w'})
-	p.follower.streamFault = verifChoose("streamFault", 3)
+	p.follower.streamFault = verifChoose("streamFault", 4)
 	verifAssert(p.rr.Connect(), "connect")
 	for round := 0; round < rounds; round++ {
 		if !p.rr.IsReady() || !p.rr.Connect() {
@@ -216,6 +230,11 @@ func verifC08Handshake() {
 		verifAssert(p.rr.AckIndex() <= p.follower.p.ReplicaAckIndex(), "ack never runs ahead of the follower's log")
 	}
 	p.checkIdentical(int64(maxSeq)+1, "after replication")
+	// no holes: whatever the leader came to count as acknowledged by this follower during the run is a
+	// position the follower really stored
+	for i := acked + 1; i <= p.cg.AcknowledgedSeq(); i++ {
+		verifAssert(p.follower.everHeld[i], "the leader never counts a position as acknowledged that the follower never stored (no hole in the follower's log)")
+	}
 	fa2 := p.follower.p.ReplicaAckIndex()
 	verifAssert(fa2 >= fa || len(p.follower.resets) > 0, "the follower's log only shrinks when the leader asked for a reset")
 	verifReach("end")
